@@ -1,0 +1,8 @@
+//go:build verif
+
+package node
+
+import "github.com/evstack/ev-node/block"
+
+// VerifBlockManager returns the node's block manager (only with the "verif" build tag).
+func (n *FullNode) VerifBlockManager() *block.Manager { return n.blockManager }
